@@ -426,7 +426,7 @@ def c17_w(ctx):
         raise Anchor("C17-W", "timeout_occurred tests in handle_timeout")
 
 
-@rule("C17", "C17-H7", 2, "receiving a PDU resets (does not merely restart) the inactivity count, in both transaction kinds")
+@rule("C17", "C17-H7", 2, "receiving a PDU resets (does not merely restart) the inactivity count, in both transaction kinds", also=("C11",))
 def c17_h7(ctx):
     for adt, nm in TXNS:
         f = ctx.one("C17-H7", nm + "::process_pdu")
@@ -668,7 +668,7 @@ def c19_c(ctx):
 
 
 # ================================================================ C17-T2: timer wiring
-@rule("C17", "C17-T2", 8, "each limit timer is built from the like-named configured timeout and limit, each Timer helper drives the like-named counter, and restart accounts for elapsed time before un-pausing")
+@rule("C17", "C17-T2", 8, "each limit timer is built from the like-named configured timeout and limit, each Timer helper drives the like-named counter, and restart accounts for elapsed time before un-pausing", also=("C19",))
 def c17_t2(ctx):
     from common import simp, sstr
 
